@@ -139,6 +139,20 @@ pub fn off_alphabet_names() -> Vec<(String, Vec<u8>)> {
     v
 }
 
+/// Well-formed names whose attribute types are neighbours of the registered ones: OIDs that extend, shorten or sit
+/// next to 2.5.4.{3,6,7,8,10,11}, alone and together with the registered type they resemble.
+pub fn neighbour_type_names() -> Vec<(String, Vec<u8>)> {
+    let atv = |o: &[u64], v: &[u8]| seq(&[oid(o), string(T_UTF8, v)]);
+    let mut v = Vec::new();
+    for x in [3u64, 6, 7, 8, 10, 11] {
+        for ext in [vec![2, 5, 4, x, 1], vec![2, 5, 4, x, 0], vec![2, 5, 4, x, 7, 1], vec![2, 5, 4, x + 30], vec![2, 5, 5, x]] {
+            v.push((format!("type {:?}", ext), seq(&[set_of(&[atv(&ext, b"n")])])));
+            v.push((format!("2.5.4.{} then type {:?}", x, ext), seq(&[set_of(&[atv(&[2, 5, 4, x], b"s")]), set_of(&[atv(&ext, b"n")])])));
+        }
+    }
+    v
+}
+
 /// A CA certificate (basicConstraints cA, keyCertSign) with the given subject = issuer name, stub-signed.
 pub fn foreign_ca_with_name(name: Vec<u8>, spki: &[u8]) -> Vec<u8> {
     let bc = [RefExt::new(OID_BC, true, seq(&[boolean(true)])), RefExt::new(OID_KU, true, bitstring(&[0x06], 1))];
